@@ -96,18 +96,29 @@ fn pos_of(p: u32) -> Position {
 }
 
 /// (start, end) offsets of the locations / edits (single-line ASCII programs: character = byte offset)
+/// locations in another file are reported at offsets >= 1_000_000 (there is only one file in the workspace)
 fn references_at(ws: &VirtualWorkspace, fid: FileId, p: u32) -> Option<Vec<(u32, u32)>> {
+    let own = ws.analysis.compilation.get_db().get_vfs().get_uri(&fid);
     let locs = verif_references(&ws.analysis, fid, pos_of(p), true)?;
-    Some(locs.iter().map(|l| (l.range.start.character + 100000 * l.range.start.line, l.range.end.character + 100000 * l.range.end.line)).collect())
+    Some(
+        locs.iter()
+            .map(|l| {
+                let foreign = if Some(&l.uri) == own.as_ref() { 0 } else { 1_000_000 };
+                (foreign + l.range.start.character + 100000 * l.range.start.line, foreign + l.range.end.character + 100000 * l.range.end.line)
+            })
+            .collect(),
+    )
 }
 
 fn rename_at(ws: &VirtualWorkspace, fid: FileId, p: u32, new_name: &str) -> Option<Vec<(u32, u32, String)>> {
+    let own = ws.analysis.compilation.get_db().get_vfs().get_uri(&fid);
     let we = verif_rename(&ws.analysis, fid, pos_of(p), new_name.to_string())?;
     let mut out = Vec::new();
     if let Some(ch) = we.changes {
-        for (_uri, edits) in ch {
+        for (uri, edits) in ch {
+            let foreign = if Some(&uri) == own.as_ref() { 0 } else { 1_000_000 };
             for e in edits {
-                out.push((e.range.start.character + 100000 * e.range.start.line, e.range.end.character + 100000 * e.range.end.line, e.new_text));
+                out.push((foreign + e.range.start.character + 100000 * e.range.start.line, foreign + e.range.end.character + 100000 * e.range.end.line, e.new_text));
             }
         }
     }
@@ -184,7 +195,7 @@ fn impl_structure(ws: &mut VirtualWorkspace, pr: &Printer) -> Result<Vec<Option<
 }
 
 /// all checks of property C14 on one program
-fn check_program(ws: &mut VirtualWorkspace, prog: &Block, stats: &mut Counters) -> Result<Vec<Viol>, String> {
+fn check_program(ws: &mut VirtualWorkspace, ws2: &mut VirtualWorkspace, prog: &Block, stats: &mut Counters) -> Result<Vec<Viol>, String> {
     let pr = Printer::program(prog);
     let text = pr.out.clone();
     let (fid, obs) = observe(ws, &text);
@@ -230,6 +241,8 @@ fn check_program(ws: &mut VirtualWorkspace, prog: &Block, stats: &mut Counters) 
                             "references-of-another-declaration"
                         } else if bad_len {
                             "references-wrong-range"
+                        } else if got.is_empty() && expected.len() == 1 {
+                            "references-of-unused-local-empty"
                         } else {
                             "references-differ"
                         };
@@ -298,7 +311,7 @@ fn check_program(ws: &mut VirtualWorkspace, prog: &Block, stats: &mut Counters) 
                                     if s2 != base_struct {
                                         out.push(Viol { sig: "rename-changes-resolution".into(), what: format!("renaming the declaration at {} to `{}` changes which declaration some use resolves to: `{}` -> `{}`", q, fresh, text.trim_end(), t2.trim_end()) });
                                     }
-                                    match impl_structure(ws, &pr2) {
+                                    match impl_structure(ws2, &pr2) {
                                         Err(e) => return Err(e),
                                         Ok(s3) => {
                                             if s3 != base_struct {
@@ -353,6 +366,7 @@ fn main() {
     let corpus = args.str("corpus", "");
     let mut rng = Rng::new(seed ^ 0xC14);
     let mut ws = VirtualWorkspace::new();
+    let mut ws2 = VirtualWorkspace::new();
     match args.cmd.as_str() {
         "corr" => {
             let mut progs = fixed_programs();
@@ -361,10 +375,8 @@ fn main() {
                 progs.push(gen_case(&mut rng, i));
             }
             for (i, p) in progs.iter().enumerate() {
+                let _ = i;
                 println!("{}", corr_line(&mut ws, p));
-                if i % 300 == 299 {
-                    ws = VirtualWorkspace::new();
-                }
             }
         }
         "search" => {
@@ -383,10 +395,11 @@ fn main() {
                 if pr.decls.iter().any(|d| d.kind != DeclKind::SelfParam) && pr.uses.iter().any(|u| u.2.is_some()) {
                     distinct.insert(pr.out.clone());
                 }
-                let r = match guarded(|| check_program(&mut ws, p, &mut counters)) {
+                let r = match guarded(|| check_program(&mut ws, &mut ws2, p, &mut counters)) {
                     Ok(r) => r,
                     Err(e) => {
                         ws = VirtualWorkspace::new();
+                        ws2 = VirtualWorkspace::new();
                         Ok(vec![Viol { sig: "handler-panicked".into(), what: format!("references/rename panicked: {} on `{}`", e, pr.out.trim_end()) }])
                     }
                 };
@@ -402,11 +415,11 @@ fn main() {
                             }
                             let sig = v.sig.clone();
                             let mut dummy = Counters::default();
-                            let small = shrink(p, &mut |c: &Block| match guarded(|| check_program(&mut ws, c, &mut dummy)) {
+                            let small = shrink(p, &mut |c: &Block| match guarded(|| check_program(&mut ws, &mut ws2, c, &mut dummy)) {
                                 Ok(Ok(vs)) => vs.iter().any(|x| x.sig == sig),
                                 _ => false,
                             });
-                            let what = match check_program(&mut ws, &small, &mut dummy) {
+                            let what = match check_program(&mut ws, &mut ws2, &small, &mut dummy) {
                                 Ok(vs) => vs.into_iter().find(|x| x.sig == sig).map(|x| x.what).unwrap_or(v.what.clone()),
                                 Err(_) => v.what.clone(),
                             };
@@ -414,9 +427,6 @@ fn main() {
                             by_sig.insert(v.sig.clone(), json!({"signature": v.sig, "what": what, "text": text, "prog": json_block(&small), "fixed_case": idx < nfixed}));
                         }
                     }
-                }
-                if idx % 300 == 299 {
-                    ws = VirtualWorkspace::new();
                 }
             }
             for v in by_sig.values() {
@@ -433,7 +443,7 @@ fn main() {
             let p = block_of_json(&v["prog"]);
             println!("{}", corr_line(&mut ws, &p));
             let mut c = Counters::default();
-            match check_program(&mut ws, &p, &mut c) {
+            match check_program(&mut ws, &mut ws2, &p, &mut c) {
                 Ok(vs) => {
                     for x in vs {
                         println!("{}", json!({"signature": x.sig, "what": x.what, "text": Printer::program(&p).out, "prog": json_block(&p)}));
